@@ -229,5 +229,10 @@ def run(cx, out):
             ok = sym.vstr(v2) == 'append_or_new_impl(self_encoded, iter)' and t2 == ['eps']
             out.ob('R15.4', '%s [%s]' % (fkey(g), cfg), ok, 'does not call append_or_new_impl(self_encoded, iter): ' + sym.vstr(v2), g['loc'])
         out.floor('R15.4', 'EncodeAppend impls [%s]' % cfg, n, 2)
+    # premises: the in-place rewrite takes the new prefix from Compact<u32>::using_encoded over the fixed-buffer sink
+    # (C07 R07.1 all entry points agree, R07.3 sinks append exactly what they are given); "input that does not begin with a
+    # valid count is rejected" and the prefix widths are the compact reader / writer tables (C04 R04.1, R04.2)
+    from . import shared
+    shared.premises(cx, out, {'c07': {'R07.1', 'R07.3'}, 'c04': {'R04.1', 'R04.2'}})
     from . import positive
     positive.check(cx, out, 'C15')
